@@ -1916,6 +1916,9 @@ func (p *CodeBuilder) BinaryOp(op token.Token, src ...ast.Node) *CodeBuilder {
 		if op == token.QUO || op == token.REM {
 			checkDivisionByZero(p, args[0], args[1])
 		}
+		if op == token.SHL || op == token.SHR {
+			checkShiftCount(p, args[1])
+		}
 		if op == token.EQL || op == token.NEQ {
 			if !ComparableTo(pkg, args[0], args[1]) {
 				err = errors.New("mismatched types")
@@ -1955,6 +1958,17 @@ func (p *CodeBuilder) BinaryOp(op token.Token, src ...ast.Node) *CodeBuilder {
 	ret.Src = expr
 	p.stk.Ret(2, ret)
 	return p
+}
+
+// checkShiftCount rejects a negative constant shift count (also when the shifted operand is
+// not a constant, which constant folding does not see).
+func checkShiftCount(cb *CodeBuilder, n *internal.Elem) {
+	if n.CVal != nil && n.CVal.Kind() != constant.Unknown {
+		if c := constant.ToInt(n.CVal); c.Kind() == constant.Int && constant.Sign(c) < 0 {
+			src, pos, end := cb.loadExpr(n.Src)
+			cb.panicCodeErrorf(pos, end, "invalid operation: negative shift count %s", src)
+		}
+	}
 }
 
 func checkNamed(typ types.Type) (ret *types.Named, ok bool) {
